@@ -253,7 +253,9 @@ func newVUpstream() (*vupstream, error) {
 						r.Ns = []refdns.RR{refdns.SOA(refdns.N("test"), 100, refdns.N("ns", "test"), refdns.N("root", "test"), 100)}
 					default:
 						r = env.Answer(q, ser, 6)
-						if u.ttl > 0 {
+						if strings.HasPrefix(name, "zttl") {
+							r = env.Answer(q, ser, 0)
+						} else if u.ttl > 0 {
 							r = env.Answer(q, ser, u.ttl)
 						}
 					}
@@ -465,8 +467,10 @@ func TestVerifRedis(t *testing.T) {
 		step("both ask pos1 after lifetime + 2.2 s")
 		before := up.count("pos1.test/1")
 		e1 := ask(A, N("pos1", "test"), 1)
-		if up.count("pos1.test/1") != before+1 || serialOf(e1) == ser1 {
-			fail("served-after-lifetime", fmt.Sprintf("at least 8.3 s after a ttl 6 answer was fetched router A still answered from the cache (serial %d, original %d, new upstream queries %d)", serialOf(e1), ser1, up.count("pos1.test/1")-before))
+		// (only the answer fetched back then is judged: if one of the earlier hits came late enough to fall into the last quarter
+		// of the lifetime - a loaded machine - a refresh has legitimately stored a newer answer, recognisable by its serial)
+		if serialOf(e1) == ser1 {
+			fail("served-after-lifetime", fmt.Sprintf("at least 8.3 s after a ttl 6 answer was fetched router A still served that answer (serial %d, new upstream queries %d)", ser1, up.count("pos1.test/1")-before))
 		}
 		// (B may now legitimately get A's fresh entry from redis: only the old answer must be gone)
 		if e2 := ask(B, N("pos1", "test"), 1); serialOf(e2) == ser1 {
@@ -500,6 +504,23 @@ func TestVerifRedis(t *testing.T) {
 			}
 		}
 	}
+	// ---- TTL 0 answers (cached for 1 s): redis keeps the fetch time in whole seconds, so within that second the age can
+	// already read "1 s" - more than the record's TTL. Ten names fetched by A, each asked once from B, 110 ms apart, so that
+	// the lookups straddle the next second boundary while the entries are still alive.
+	if prop == "C08" {
+		step("A fetches zttl0..9 (upstream TTL 0), B asks them 110 ms apart")
+		for i := 0; i < 10; i++ {
+			ask(A, N(fmt.Sprintf("zttl%d", i), "test"), 1)
+		}
+		for i := 0; i < 10; i++ {
+			time.Sleep(110 * time.Millisecond)
+			z := ask(B, N(fmt.Sprintf("zttl%d", i), "test"), 1)
+			if z != nil && len(z.An) > 0 && z.An[0].TTL > 1 {
+				fail("ttl-exceeds-upstream-ttl", fmt.Sprintf("upstream TTL 0, fetched less than 2 s ago: B served zttl%d with ttl %d (must be at most 1)", i, z.An[0].TTL))
+				break
+			}
+		}
+	}
 	// ---- what was written to redis
 	rd.mu.Lock()
 	sets := append([]vredisSet(nil), rd.sets...)
@@ -517,6 +538,8 @@ func TestVerifRedis(t *testing.T) {
 		switch {
 		case s.px <= 0:
 			fail("stored-without-lifetime", desc)
+		case strings.Contains(k, "zttl") && s.px > 1000:
+			fail("lifetime-too-long", "a ttl 0 answer (cached for at most 1 s): "+desc)
 		case strings.Contains(k, "pos") && s.px > 6000:
 			fail("lifetime-too-long", "a ttl 6 answer: "+desc)
 		case strings.Contains(k, "nx1") && s.px > 30000:
